@@ -73,6 +73,8 @@ func genSrvReq(g *simrt.Tape) *ReqSc {
 			it.Ext = "critical"
 		case 2:
 			it.NoID = true
+		case 3:
+			it.Ext = "plain"
 		}
 		rs.Items = append(rs.Items, it)
 	}
